@@ -11,6 +11,8 @@ R4 guards dominate      : duplicate country/sector tests raise before the append
                           market-like supplier/issuer search raises on 0 and on >1 matches."""
 import ast
 
+from ..inline import flatten
+
 from .. import cfg as cfgmod
 from ..loader import AnalysisError, unparse, call_name, attr_chain, const_str
 from ..dataflow import linform, lin_eq, target_names
@@ -404,6 +406,7 @@ def check_reserved_names(prog, check):
         raise AnalysisError('ValidateInputs: %d definitions' % len(vs))
     v = vs[0]
     check.saw(v)
+    v = flatten(prog, v)
     var_sets, tok_sets = set(), set()
     for n in ast.walk(v.node):
         if isinstance(n, ast.Assign) and isinstance(n.value, ast.Call) and isinstance(n.targets[0], ast.Name):
@@ -418,7 +421,13 @@ def check_reserved_names(prog, check):
             if t.kind == 'test' and isinstance(t.ast, ast.Compare) and isinstance(t.ast.ops[0], ast.In) and \
                     isinstance(t.ast.comparators[0], ast.Name) and t.ast.comparators[0].id in setnames:
                 tgt = [b for b, l in gv.succ[t.id] if l is True]
-                r = gv.reach(tgt, include_src=True)
+                # feasible paths from the positive outcome (names, tokens are strings: an element drawn from a collection is
+                # never None) must all end in a raise
+                from ..dataflow import truth_search as _ts2
+                def took(extra, node, lab, env, nxt, _t=t):
+                    return 1 if (extra or (node is _t and lab is True)) else 0
+                hits_, seen_ = _ts2(gv, [gv.entry], [gv.exit], obj_iter=lambda it: True, extra0=0, step=took)
+                r = {k[0] for k in seen_ if k[2] == 1}
                 rn = [gv.nodes[i] for i in r if gv.nodes[i].kind == 'stmt' and isinstance(gv.nodes[i].ast, ast.Raise)]
                 if gv.raise_exit.id in r and gv.exit.id not in r and rn:
                     loops = [l for l in t.loops if isinstance(l, ast.For)]
@@ -586,7 +595,8 @@ def check_searches(prog, check, rule):
     from ..cfg import atomic_facts
     from ..dataflow import truth_search, trace, OBJECT_ITER
     n = 0
-    for ci in prog.subclasses('Sector'):
+    # markets (goods, labour, financial assets) look for their counterparty; other sectors' optional look-ups are not searches
+    for ci in prog.subclasses('Market'):
         for fn_raw in ci.methods.values():
             fn = flatten(prog, fn_raw)
             loops = [x for x in ast.walk(fn.node) if isinstance(x, ast.For) and isinstance(x.target, ast.Name) and OBJECT_ITER(x.iter)]
@@ -614,7 +624,10 @@ def check_searches(prog, check, rule):
                 sel = [x for x in ast.walk(loop) if (isinstance(x, ast.Assign) and len(x.targets) == 1 and isinstance(x.targets[0], ast.Name)
                                                       and isinstance(x.value, ast.Name) and x.value.id == s_) or
                        (isinstance(x, ast.AugAssign) and isinstance(x.target, ast.Name) and isinstance(x.op, ast.Add) and
-                        isinstance(x.value, ast.Constant) and x.value.value == 1)]
+                        isinstance(x.value, ast.Constant) and x.value.value == 1) or
+                       (isinstance(x, ast.Expr) and isinstance(x.value, ast.Call) and call_name(x.value) == 'append' and
+                        isinstance(x.value.func, ast.Attribute) and isinstance(x.value.func.value, ast.Name) and len(x.value.args) == 1 and
+                        isinstance(x.value.args[0], ast.Name) and x.value.args[0].id == s_)]
                 if not sel:
                     continue
                 if g is None:
